@@ -72,28 +72,32 @@ class FitFractions:
         )
         self.cached_int_total += int_mc
         self.cached_grad_total += g_int_mc
-        cahced_res = self.amp.used_res
+        # the chains selected before, not the full list of the constructor
+        old_chains = list(self.amp.decay_group.chains_idx)
         amp_tmp = self.amp
-        for i in range(len(self.res)):
-            for j in range(i, -1, -1):
-                if i == j:
-                    name = str(self.res[i])
-                    amp_tmp.set_used_res([self.res[i]])
-                else:
-                    name = (str(self.res[i]), str(self.res[j]))
-                    amp_tmp.set_used_res([self.res[i], self.res[j]])
-                int_tmp, g_int_tmp = eval_integral(
-                    amp_tmp,
-                    mcdata,
-                    var=self.var,
-                    weight=weight,
-                    args=args,
-                    kwargs=kwargs,
-                )
-                self.cached_int[name] = self.cached_int[name] + int_tmp
-                self.cached_grad[name] = self.cached_grad[name] + g_int_tmp
-
-        self.amp.set_used_res(cahced_res)
+        try:
+            for i in range(len(self.res)):
+                for j in range(i, -1, -1):
+                    if i == j:
+                        name = str(self.res[i])
+                        amp_tmp.set_used_res([self.res[i]])
+                    else:
+                        name = (str(self.res[i]), str(self.res[j]))
+                        amp_tmp.set_used_res([self.res[i], self.res[j]])
+                    int_tmp, g_int_tmp = eval_integral(
+                        amp_tmp,
+                        mcdata,
+                        var=self.var,
+                        weight=weight,
+                        args=args,
+                        kwargs=kwargs,
+                    )
+                    self.cached_int[name] = self.cached_int[name] + int_tmp
+                    self.cached_grad[name] = (
+                        self.cached_grad[name] + g_int_tmp
+                    )
+        finally:
+            self.amp.set_used_chains(old_chains)
 
     def get_frac_grad(self, sum_diag=True):
         n = len(self.res)
@@ -175,6 +179,21 @@ def nll_grad(f, var, args=(), kwargs=None, options=None):
     return f_w
 
 
+def _restore_used_chains(f):
+    """restore the chains selected before the call, also when it raises"""
+
+    @functools.wraps(f)
+    def g(amp, *args, **kwargs):
+        old_chains = list(amp.decay_group.chains_idx)
+        try:
+            return f(amp, *args, **kwargs)
+        finally:
+            amp.set_used_chains(old_chains)
+
+    return g
+
+
+@_restore_used_chains
 def cal_fitfractions(amp, mcdata, res=None, batch=None, args=(), kwargs=None):
     r"""
     defination:
@@ -258,6 +277,7 @@ def cal_fitfractions(amp, mcdata, res=None, batch=None, args=(), kwargs=None):
     return fitFrac, err_fitFrac
 
 
+@_restore_used_chains
 def cal_fitfractions_no_grad(
     amp, mcdata, res=None, batch=None, args=(), kwargs=None
 ):
